@@ -480,6 +480,7 @@ int32_t
 qb_rb_chunk_commit(struct qb_ringbuffer_s * rb, size_t len)
 {
 	uint32_t old_write_pt;
+	uint32_t new_write_pt;
 
 	if (rb == NULL) {
 		return -EINVAL;
@@ -489,11 +490,25 @@ qb_rb_chunk_commit(struct qb_ringbuffer_s * rb, size_t len)
 	 */
 	old_write_pt = rb->shared_hdr->write_pt;
 	rb->shared_data[old_write_pt] = len;
+	new_write_pt = qb_rb_chunk_step(rb, old_write_pt);
+
+	/*
+	 * The reader takes the two words behind this chunk for the header
+	 * of the next one. They may still hold payload of an earlier lap,
+	 * which must not be able to pass for a chunk marker. The chunk
+	 * margin keeps the first of them free; the second one is free as
+	 * well unless this chunk fills the whole ring, in which case it is
+	 * this chunk's own length word (cleared when the chunk is reclaimed).
+	 */
+	rb->shared_data[new_write_pt] = 0;
+	if (((new_write_pt + 1) % rb->shared_hdr->word_size) != old_write_pt) {
+		QB_RB_CHUNK_MAGIC_SET(rb, new_write_pt, QB_RB_CHUNK_MAGIC_DEAD);
+	}
 
 	/*
 	 * commit the new write pointer
 	 */
-	rb->shared_hdr->write_pt = qb_rb_chunk_step(rb, old_write_pt);
+	rb->shared_hdr->write_pt = new_write_pt;
 	QB_RB_CHUNK_MAGIC_SET(rb, old_write_pt, QB_RB_CHUNK_MAGIC);
 
 	DEBUG_PRINTF("commit [%zd] read: %u, write: %u -> %u (%u)\n",
